@@ -150,6 +150,7 @@ func (p *Parser) parseBinaryExpr(x Expression, prec1 int) (Expression, error) {
 }
 
 func (p *Parser) parseUnaryExpr() (Expression, error) {
+	simYield("parser.expr")
 	p.incNestLev()
 	defer func() {
 		p.decNestLev()
